@@ -50,3 +50,9 @@ add("C16", "exploration", RM + " (FirstDiffBits/CountPrefixes vs bitwise scan an
 add("C17", "exploration", RM + " (ShardByPrefix output checked by a pure checker: boundaries, size bound, exact LCP, strict prefix order)",
     "All ascending subsets (size 1..6) of a 12-string universe designed around the recursion x every maxSize, keyzoo sets up to 300 keys x 9 maxSize values, thorough: 5000-key sets with 40-byte common prefixes.",
     "Only the clauses of the statement are checked (not maximality of shards).", "DESIGN.md 3/C17")
+add("C15", "exploration", "runtime monitoring: online trace checker stepping an absolute-position set model after every Set/Compact of seeded TailBitmap histories; Get/Get1 sweeps at quiescent points",
+    "~2100 (quick) / 10^5 (thorough) histories over 5 initial offsets x 7 patterns plus 140000-bit histories crossing the reclaim threshold (with and without stored words at that moment); Offset alignment/monotonicity/'never past a 0', first-word-not-full, word-for-word agreement with the model, Compact leaving every Get unchanged.",
+    "Histories are seeded, not enumerated; Get probed only below the end of stored words; nothing claimed about memory reclamation.", "DESIGN.md 3/C15")
+add("C18", "fault_enumeration", "runtime monitoring: online trace checker over return values and every (offset, bytes) reaching a recording io.WriterAt, with position-/quota-based faults enumerated at every position of the short sections",
+    "20 sections x every refusal position F in [base-1, base+n+1] x {partial, all-or-nothing} and every quota in [0,n+1] (660 fault plans) x seeded Write/WriteAt/Seek histories of 1..30 ops; count, error class, bytes and positions on the device, containment, cursor and Size read back after every op; larger sections and AtToWriter sampled.",
+    "Fault positions enumerated only for sections of <= 29 bytes; op sequences are seeded-random; negative WriteAt offsets only checked for 'nothing written'.", "DESIGN.md 3/C18")
